@@ -310,6 +310,33 @@ def extract(repo):
     return t
 
 
+# Last-known-good constants (the unchanged, repaired tree).  Used ONLY when the extraction above fails or the generated
+# file no longer compiles, so that the model correspondence can still run; the evidence then says so, and the translator /
+# proof failure is reported as a violation regardless.
+FALLBACK = {
+    "basis_table": [("I", None), ("Z", None), ("X", ("RY", -4)), ("Y", ("RX", 4))],
+    "basis_else_raises": True,
+    "e_isv_guard": "((c_isv c) && negb (c_sv c))",
+    "v_isv_guard": "((c_isv c) && negb (c_sv c))",
+    "freq_cond": "((c_noise c) || negb (c_sv c) || (shots_set c) || ((c_mixed c) && (shots_set c)) || (c_size0 c))",
+    "sv_cond": "(c_sv c)",
+    "sv_exact_cond": "negb (shots_truthy c)",
+    "prep_cond_e": "(negb (c_sv c) || (c_mixed c) || (c_noise c))",
+    "prep_cond_v": "(negb (c_sv c) || (c_mixed c) || (c_noise c))",
+    "e_complex_types": ["complex", "np.complex128", "np.complex64"],
+    "v_complex_types": ["complex", "np.complex128", "np.complex64"],
+    "e_split_forwards_dmr": True, "sim_forwards_dmr_e": True,
+    "v_real_forwards_dmr": True, "v_split_forwards_dmr": True, "sim_forwards_dmr_v": True,
+    "dispatch_has_else": False, "freq_identity_adds_coef": True, "sv_identity_adds_coef": True,
+    "std_err_formula": "sqrt(variance/n_shots) if n_shots else 0",
+}
+
+
+def fallback():
+    import copy
+    return copy.deepcopy(FALLBACK)
+
+
 def _coq_bool(b):
     return "true" if b else "false"
 
